@@ -282,6 +282,11 @@ fn gen_vacuum(seed: u64, tier: Tier) -> Scenario {
         let d = s.ops.iter().find_map(|o| if let Op::Put(p) = o { p.emb.as_ref().map(|e| e.len()) } else { None }).unwrap_or(rv.range(2, 8) as usize);
         // a document in front of them that is deleted before the compaction, so that the
         // compaction really moves the later payloads and the index region
+        // (with the vector index enabled explicitly the compaction re-encodes it from the decoded
+        // index; enabled only implicitly by the puts it keeps the old manifest)
+        if rv.chance(2, 3) {
+            ins.push(Op::EnableVec);
+        }
         let mut pad = PutSpec { pay: Some(Pay::new(PK::Bin, rv.range(300, 5000) as usize, rv.next())), ts: Some(49), ..Default::default() };
         pad.uri = Some("mv2://vec-tail/pad".into());
         ins.push(Op::Put(pad));
